@@ -15,6 +15,7 @@ struct Transcript {
 struct CaseOpt {
 	bool force_residue = false;
 	int residue_mode = 1; uint8_t residue_byte = 0; hz::Bytes residue_data;
+	int variant = 0;          // 0 = zero residue run, 1 = the other run: steps that craft a datagram-specific continuation use it only in run 1
 	Transcript *tr = nullptr;
 	int inst_filter = -1;     // instance whose behaviour is recorded (-1: all real programs)
 };
@@ -23,6 +24,15 @@ inline void apply_residue(const CaseOpt &o)
 	if (!o.force_residue) return;
 	sim::W.residue_mode = o.residue_mode; sim::W.residue_byte = o.residue_byte; sim::W.residue_data = o.residue_data;
 }
+// a step sends a datagram whose continuation (the bytes a careless reader would take from beyond its end) is known:
+// in run 1 of a differential case exactly that continuation is placed after the datagram, in run 0 zeros
+struct ScopedResidue {
+	int mode; uint8_t byte; hz::Bytes data; bool active;
+	ScopedResidue(const CaseOpt &o, const hz::Bytes &continuation) : mode(sim::W.residue_mode), byte(sim::W.residue_byte), data(sim::W.residue_data), active(o.force_residue && o.variant == 1)
+	{ if (active) { sim::W.residue_mode = 2; sim::W.residue_data = continuation; if (sim::W.residue_data.empty()) sim::W.residue_data.push_back(0); } }
+	~ScopedResidue() { if (active) { sim::W.residue_mode = mode; sim::W.residue_byte = byte; sim::W.residue_data = data; } }
+};
+
 inline void record(const CaseOpt &o)
 {
 	if (!o.tr) return;
